@@ -36,6 +36,15 @@ def attach_evaluate(prop="C05"):
                 sh = S.shadow(self)
             except RecursionError:
                 sh = None
+            # what the caller passed, as it was when the call began (dict(...) copies the items of a
+            # Counter / defaultdict without triggering __missing__): the call is decided against
+            # this, whatever the callee does to the object
+            at_entry = context
+            try:
+                if isinstance(context, dict):
+                    at_entry = dict(context)
+            except Exception:
+                pass
             try:
                 res = orig(self, context)
             except BaseException as e:
@@ -44,7 +53,7 @@ def attach_evaluate(prop="C05"):
             _DEPTH[0] -= 1
         if sh is not None:
             try:
-                decide(prop, self, sh, context, res, exc)
+                decide(prop, self, sh, at_entry, res, exc, type(context).__name__ + (":" + getattr(getattr(context, "default_factory", None), "__name__", "") if hasattr(context, "default_factory") else ""))
             except RecursionError:
                 core.REC.skip("eval: tree too deep for the oracle")
         if exc is not None:
@@ -153,7 +162,7 @@ def _first_div0_transparent(sh, sigma):
         return False
 
 
-def decide(prop, node, sh, context, res, exc):
+def decide(prop, node, sh, context, res, exc, ctx_type=None):
     rec = core.REC
     problems = S.audit(node, expr=True) if node.parent is None else S.audit(S.build(sh), expr=True)
     if problems:
@@ -163,6 +172,8 @@ def decide(prop, node, sh, context, res, exc):
     names = S.variables(sh)
     ctx = context or {}
     w = {"tree": S.to_json(sh), "text": S.text_of(node), "context": {k: _r(v) for k, v in ctx.items()} if isinstance(ctx, dict) else _r(ctx)}
+    if ctx_type and ctx_type != "dict":
+        w["context_type"] = ctx_type
 
     def bad(key, what, got):
         w2 = dict(w)
